@@ -54,10 +54,13 @@ fn builder_append_keyframe(name: &Path, config: &KeyframeConfig) -> Result<Token
         KeyframePositionArgument::Percent(lit, _) => lit.as_f32()? * 0.01,
     };
     match &config.values {
-        KeyframeValues::Default(_) => Ok(quote! {
-            .keyframe(#name::keyframe(#normalized_time)
-                .values_from(#normalized_time, &default_values))
-        }),
+        KeyframeValues::Default(_) => {
+            let default_values = crate::fn_animator::default_values_ident();
+            Ok(quote! {
+                .keyframe(#name::keyframe(#normalized_time)
+                    .values_from(#normalized_time, &#default_values))
+            })
+        }
         KeyframeValues::Explicit(field_values, _) => {
             let setters = field_values
                 .iter()
